@@ -5,11 +5,11 @@ SUBCMD = "sim"
 IS_TRACE = True
 RUN = "monitor"
 TAGS = {4, 13, 10}
-NKINDS = 28
-RULE = ("one endpoint (client or server) emits, once, at a random instant of an ongoing transfer, one of 28 illegal or "
+NKINDS = 29
+RULE = ("one endpoint (client or server) emits, once, at a random instant of an ongoing transfer, one of 29 illegal or "
         "borderline frame sequences in 1-RTT packets (flow-control / stream-limit / stream-state / final-size violations, "
         "ACK of unsent packets, malformed and over-limit NEW_CONNECTION_ID, unissued RETIRE_CONNECTION_ID, HANDSHAKE_DONE / "
-        "NEW_TOKEN from a client, oversized CRYPTO / DATAGRAM, unknown and truncated frames, random bytes); local "
+        "NEW_TOKEN from a client, oversized CRYPTO (beyond, and straddling, the buffer limit) / DATAGRAM, unknown and truncated frames, random bytes); local "
         "configurations vary (ack-frequency, CID lengths, datagram buffers, limits, second untouched connection); "
         "non-trivial = the injection was accepted for transmission")
 
